@@ -98,12 +98,12 @@ func oracleC06Truncation(f PbfFile, cutSel int, procs int) {
 func oracleC06Damage(f PbfFile, kind int) {
 	pbfNormalize(&f)
 	vAssume(len(f.Blocks) > 0)
-	if pbfAbs(kind)%6 >= 3 {
+	if pbfAbs(kind)%7 >= 3 {
 		// damage inside the last data block: string references outside the string table,
 		// or parallel columns of different length
 		last := &f.Blocks[len(f.Blocks)-1]
 		vAssume(len(last.Ways)+len(last.Rels)+len(last.Nodes) > 0)
-		if pbfAbs(kind)%6 == 3 {
+		if pbfAbs(kind)%7 == 3 {
 			// effective only if the block references a string at all
 			refs := last.DenseInfo && len(last.Nodes) > 0
 			for _, n := range last.Nodes {
@@ -117,9 +117,13 @@ func oracleC06Damage(f PbfFile, kind int) {
 			}
 			vAssume(refs)
 			last.ShortStrings = true
-		} else if pbfAbs(kind)%6 == 5 {
+		} else if pbfAbs(kind)%7 == 5 {
 			// a plain node group in front of everything else in the block
 			last.PlainNodes = true
+		} else if pbfAbs(kind)%7 == 6 {
+			// wrong uncompressed size: raw_size declares only a (valid) prefix of the inflated block
+			vAssume(pbfPrefixLen(*last) > 0)
+			last.ShortRawSize = true
 		} else {
 			// effective only if some way has refs (lat column longer than refs) or some relation has
 			// a member (a relation without a types column is read as one without members)
@@ -143,9 +147,9 @@ func oracleC06Damage(f PbfFile, kind int) {
 		return
 	}
 	data, starts, _ := pbfBuild(f)
-	if pbfAbs(kind)%6 == 2 {
+	if pbfAbs(kind)%7 == 2 {
 		// oversized header length prefix (between the 64 KiB header limit and the 32 MiB blob limit)
-		k := pbfAbs(kind/6) % (len(starts) - 1)
+		k := pbfAbs(kind/7) % (len(starts) - 1)
 		mut := append([]byte{}, data...)
 		binary.BigEndian.PutUint32(mut[starts[k]:], uint32(65537+pbfAbs(kind)%1000))
 		res := pbfScan(mut, 1, nil, 0)
@@ -210,7 +214,7 @@ func oracleC07Close(b PbfBlock, k int, procs int) {
 		b.Nodes = []PbfNode{{ID: 1}}
 	}
 	b.Ways, b.Rels = nil, nil
-	b.ShortStrings, b.ExtraColumn, b.PlainNodes = false, false, false // an intact file: no decoding error gets recorded
+	b.ShortStrings, b.ExtraColumn, b.PlainNodes, b.ShortRawSize = false, false, false, false // an intact file: no decoding error gets recorded
 	for i := 0; i < 80; i++ {
 		f.Blocks = append(f.Blocks, b)
 	}
